@@ -19,6 +19,7 @@ EXPLANATION = (
     "with the full list; descendants yields a child before that child's descendants, in children order; "
     "type_tree uses the same order; assertHasMessage/assertHasAction take element 0 after asserting "
     "non-emptiness, compare `succeeded`, and use the superset comparison of assertContainsFields."
+    "  C03.truthful is included: the success flag the helpers expose is the status Action.finish stores, which must be 'succeeded' exactly when no exception was given."
 )
 RULE = "obligation = rule instance bound to a filter / loop / call of eliot/testing.py; non-trivial = expressions or CFG paths examined"
 ASSUMPTIONS = ["agreement with eliot.parse on arbitrary trees is NOT decided by this check",
@@ -298,6 +299,9 @@ def rule_first(chk):
 
 
 def run(chk):
+    # "its success flag": LoggedAction.succeeded reads the end message's status, which Action.finish must set truthfully
+    from . import c03
+    c03.rule_truthful(chk)
     rule_select(chk)
     rule_own(chk)
     rule_preorder(chk)
